@@ -135,6 +135,9 @@ def gen_prim(r, kind, p, tricky, nonempty=False):
         s = gen_text(r)
         if tricky and r.random() < 0.15:
             s = r.choice(["123", "true", "1.50", "2001-01-01", "+1", "007", "1e3", "P1D"])
+        elif kind == "json" and r.random() < 0.12:
+            # JSON strings that spell other JSON / XSD types must stay strings (fix 9a0cfef)
+            s = r.choice(["true", "false", "1", "0", "1.5", "2020-01-01", "INF", "null", "-7", "1e3", "NaN"])
         if nonempty and s == "":
             s = "t"
         return {"__p__": "str", "v": s}
@@ -252,6 +255,12 @@ WITNESSES = [
     {"id": "w-inexact", "kind": "xml", "samples": ['<r><v>1.5</v><v>123456789012345678901234567890.5</v></r>']},
     {"id": "w-seq-conflated", "kind": "xml", "samples": ['<r><p><a>1</a><a>2</a><b>x</b></p><p><b>x</b><c>y</c><c>z</c><d>w</d></p></r>']},
     {"id": "w-ns-contexts", "kind": "xml", "samples": ['<r><p xmlns="urn:b"><k xmlns="" a="1"/></p><q><k a="2"><t>2</t></k></q></r>']},
+    {"id": "w-json-strings-spelling-types", "kind": "json", "package": "gen.doc", "samples": [
+        '{"b": "true", "c": "false", "i": "1", "f": "1.5", "d": "2020-01-01", "x": "INF", "n": "null", '
+        '"l": ["true", "1", "x"], "lb": ["false", "true"], "o": {"b": "false", "l": ["1.5", "2"], "p": {"t": "true"}}, '
+        '"items": [{"v": "true"}, {"v": "0"}]}',
+        '{"b": "false", "c": "true", "i": "2", "f": "2.5", "d": "2021-02-03", "x": "-INF", "n": "null", '
+        '"l": [], "lb": ["true"], "o": {"b": "true", "l": [], "p": {"t": "false"}}, "items": []}']},
     {"id": "w-json-string", "kind": "json", "package": "gen.doc", "samples": ['{"s": "123"}']},
 ]
 
